@@ -4,13 +4,15 @@ Bound == TLCGet("level") <= MaxLevel
 \* states on the last level are checked but not expanded (their successors would be thrown away by Bound anyway)
 RotateB(k) == TLCGet("level") < MaxLevel /\ Rotate(k)
 NextB == \E k \in KSet : RotateB(k)
+NextE == NextB                                  \* emission: only the initial states are expanded
 View  == vars                                   \* emission configs: one node per (o, c); act hidden
 \* one line per explored Rotate edge; the expected cell and coordinates are the GEOMETRIC images
 Emit  == PrintT(ToJson([lvl |-> TLCGet("level"), from |-> Vars, act |-> [n |-> act'.n, k |-> act'.k],
-                        to |-> [o |-> o', c |-> c'],
+                        to |-> [o |-> o', c |-> c', kz |-> kz', sp |-> sp'],
                         obs |-> [c  |-> GeoRot(o, act'.k, c),
                                  xy |-> SymRotVec(o, act'.k, SymXY(o, c)),
-                                 ring |-> SymRing(c)]]))
+                                 ring |-> SymRing(c),
+                                 kz |-> kz, z |-> kz]]))       \* z in units of the axial step
 \* one line per distinct (o, c): every query result
-EmitState == PrintT(ToJson([st |-> Vars, obs |-> Obs]))
+EmitState == InitLike => PrintT(ToJson([st |-> Vars, obs |-> Obs]))   \* rotated locations keep their kz / sp: not new cases
 =========================================================================================================
